@@ -19,3 +19,14 @@ func Worker(args []string) int {
 	}
 	return 2
 }
+
+func init() {
+	Registry["C01"] = C01
+	Registry["C10"] = C10
+	Registry["C11"] = C11
+	Registry["C16"] = C16
+}
+
+func init() { Registry["C13"] = C13 }
+
+var c13Concurrent = func(c *vk.Ctx) {}
